@@ -21,6 +21,13 @@ def shards(tier, seed):
     k = 1 if tier == "quick" else 4
     out = [{"name": f"localtime:{i}", "part": "lt"} for i in range(k)]
     out += [{"name": f"ldt:{cid}", "part": "ldt", "cal": cid} for cid in CalendarSystem.ids]
+    # auxiliary workload: the repository's own tests with the carry contracts switched on
+    if tier == "quick":
+        out.append({"name": "repo-tests:local", "part": "repo_tests", "paths": ["tests/test_local_time.py", "tests/test_local_date_time.py", "tests/test_period.py"]})
+    else:
+        out += [{"name": f"repo-tests:{p}", "part": "repo_tests", "paths": [p]} for p in
+                ("tests/test_local_time.py", "tests/test_local_date_time.py", "tests/test_period.py", "tests/test_time_adjusters.py", "tests/test_offset_time.py", "tests/test_zoned_date_time.py",
+                 "tests/test_offset_date_time.py", "tests/text", "tests/time_zones")]
     return out
 
 
@@ -304,6 +311,10 @@ def run_ldt(ctx, cid):
 
 def run(ctx, shard):
     install_contracts(ctx)
+    if shard["part"] == "repo_tests":
+        from vf.repo_tests import run_repo_tests
+        run_repo_tests(ctx, shard["paths"])
+        return
     if shard["part"] == "lt":
         run_lt(ctx)
     else:
